@@ -240,7 +240,163 @@ def wide_forest(rng, style, P):
     return roots, kids
 
 
-def gen_bookmark_case(rng, kind, tier, deep_n=None, wide=None):
+# ------------------------------------------------------------------------------------------
+# named destinations: `Dests` / `Names`->`Dests` in the catalog.  get_toc runs get_named_destinations on the tree before it
+# walks the outline; the outline build_outline writes never uses a name, so a tree must not change the table of contents --
+# unless get_named_destinations refuses it (Err), which ends get_toc (domain restriction of the read-back clause, notes/C17.md)
+# ------------------------------------------------------------------------------------------
+NT_VALID = ['flat-direct', 'flat-ref', 'tree', 'tree', 'names-ref', 'old-style', 'title-keys', 'deep-256', 'deep-257',
+            'dag-small', 'tol-kid-number', 'tol-kid-nondict', 'tol-trailing-key', 'tol-value-scalar', 'tol-value-refscalar',
+            'tol-direct-array', 'tol-both']
+NT_REFUSED = ['cyc-self', 'cyc-two', 'cyc-ancestor', 'kids-notarray', 'names-notarray', 'value-noD', 'value-D-notarray',
+              'value-D-short', 'refvalue-noD', 'refarray-short', 'key-notstring', 'deep-258', 'dag-over-budget']
+
+
+def name_tree(rng, style, pages, first_free, titles, nbuilt):
+    """returns (catalog entries, extra objects, highest id used).  nbuilt = number of objects build_outline will add at most."""
+    nxt = [first_free - 1]
+    extra = []
+    def new_id():
+        nxt[0] += 1
+        return (nxt[0], 0)
+    def put(o):
+        i = new_id()
+        extra.append((i, o))
+        return i
+    def pg():
+        return REF(*rng.choice(pages))
+    def dest_arr(short=None):
+        if short is not None:
+            return A([pg()][:short])
+        return rng.choice([A([pg(), N('Fit')]), A([pg(), N('XYZ'), I(0), I(792), NULL]), A([pg(), N('FitH'), R('100.5')]),
+                           A([I(0), N('Fit')])])
+    keyno = [0]
+    def key():
+        keyno[0] += 1
+        if style == 'title-keys' and titles:
+            t = rng.choice(titles)
+            b = bytes(c for c in t if c < 128)
+            if b and rng.random() < 0.7:
+                return S(b)
+        k = ('n%03d' % keyno[0]).encode() + bytes(rng.randint(33, 126) for _ in range(rng.randint(0, 4)))
+        return rng.choice([S(k), S(k), H(k)])
+    def value():
+        r = rng.random()
+        if r < 0.35:
+            return REF(*put(dest_arr()))
+        if r < 0.65:
+            return REF(*put(D([('D', dest_arr())] + ([('Type', N('Whatever'))] if rng.random() < 0.2 else []))))
+        return D([('D', dest_arr())])
+    def names_arr(n):
+        out = []
+        for _ in range(n):
+            out += [key(), value()]
+        return out
+    def leaf(n=None):
+        ent = [('Names', A(names_arr(rng.randint(0, 4) if n is None else n)))]
+        if rng.random() < 0.5:
+            ent.insert(0, ('Limits', A([S(b'a'), S(b'z')])))
+        return ent
+    def tree(depth):
+        if depth == 0 or rng.random() < 0.3:
+            return leaf()
+        return [('Kids', A([REF(*put(D(tree(depth - 1)))) for _ in range(rng.randint(1, 3))]))]
+    def chain(levels):
+        """root + `levels` nested Kids levels; the last node is a leaf"""
+        cur = leaf(1)
+        for _ in range(levels):
+            cur = [('Kids', A([REF(*put(D(cur)))]))]
+        return cur
+    def attach_as(root_ent, how=None):
+        how = how or rng.choice(['dests-direct', 'dests-ref', 'names-direct', 'names-ref', 'names-refref'])
+        if how == 'dests-direct':
+            return [('Dests', D(root_ent))]
+        if how == 'dests-ref':
+            return [('Dests', REF(*put(D(root_ent))))]
+        if how == 'names-direct':
+            return [('Names', D([('Dests', D(root_ent))] + ([('EmbeddedFiles', D([('Names', A([]))]))] if rng.random() < 0.3 else [])))]
+        if how == 'names-ref':
+            return [('Names', D([('Dests', REF(*put(D(root_ent))))]))]
+        return [('Names', REF(*put(D([('Dests', REF(*put(D(root_ent))))]))))]
+    root = None
+    how = None
+    if style == 'flat-direct':
+        root, how = leaf(rng.randint(1, 5)), rng.choice(['dests-direct', 'names-direct'])
+    elif style == 'flat-ref':
+        root, how = leaf(rng.randint(1, 5)), rng.choice(['dests-ref', 'names-ref', 'names-refref'])
+    elif style in ('tree', 'title-keys'):
+        root = [('Kids', A([REF(*put(D(tree(2)))) for _ in range(rng.randint(1, 3))]))]
+        if rng.random() < 0.3:
+            root += leaf()                                   # a node with both Kids and Names
+    elif style == 'names-ref':
+        root, how = tree(2), 'names-refref'
+    elif style == 'old-style':
+        # PDF 1.1: Dests is a dictionary name -> destination, no Kids / Names keys
+        root = [('d%d' % k, rng.choice([dest_arr(), D([('D', dest_arr())])])) for k in range(rng.randint(0, 4))]
+        how = rng.choice(['dests-direct', 'dests-ref'])
+    elif style in ('deep-256', 'deep-257', 'deep-258'):
+        # NAME_TREE_DEPTH_LIMIT = 256 (src/destinations.rs): kids are entered at depth 0..255, so root + 256 levels is read
+        # and root + 257 levels is refused
+        root = chain({'deep-256': 255, 'deep-257': 256, 'deep-258': 257}[style])
+    elif style in ('dag-small', 'dag-over-budget'):
+        # the same leaf listed many times: the kid budget is objects.len() of the document that is read
+        lf = put(D(leaf(1)))
+        total = first_free + 8 + nbuilt            # more than the document can hold after the build
+        reps = rng.randint(2, 4) if style == 'dag-small' else total + rng.randint(1, 40)
+        root = [('Kids', A([REF(*lf)] * reps))]
+    elif style == 'tol-kid-number':
+        root = [('Kids', A([I(7), REF(*put(D(leaf()))), N('x'), NULL]))]
+    elif style == 'tol-kid-nondict':
+        root = [('Kids', A([REF(*put(I(3))), REF(*put(A([]))), REF(nxt[0] + 700, 0), REF(*put(D(leaf())))]))]
+    elif style == 'tol-trailing-key':
+        root = [('Names', A(names_arr(rng.randint(0, 3)) + [key()]))]
+    elif style == 'tol-value-scalar':
+        root = [('Names', A([key(), I(4), key(), N('Fit'), key(), NULL] + names_arr(1)))]
+    elif style == 'tol-value-refscalar':
+        root = [('Names', A([key(), REF(*put(I(9))), key(), REF(nxt[0] + 800, 0), key(), REF(*put(S(b'str')))] + names_arr(1)))]
+    elif style == 'tol-direct-array':
+        root = [('Names', A([key(), dest_arr(), key(), A([])] + names_arr(1)))]     # a direct array value is skipped, not read
+    elif style == 'tol-both':
+        root = [('Kids', A([REF(*put(D(leaf())))])), ('Names', A(names_arr(2)))]
+    elif style == 'cyc-self':
+        me = new_id()
+        extra.append((me, D([('Kids', A([REF(*me)]))])))
+        return rng.choice([[('Dests', REF(*me))], [('Names', D([('Dests', REF(*me))]))]]), extra, nxt[0]
+    elif style == 'cyc-two':
+        a, b = new_id(), new_id()
+        extra.append((a, D([('Kids', A([REF(*put(D(leaf()))), REF(*b)]))])))
+        extra.append((b, D([('Kids', A([REF(*a)]))] + leaf())))
+        return [('Dests', REF(*a))], extra, nxt[0]
+    elif style == 'cyc-ancestor':
+        top = new_id()
+        mid = put(D([('Kids', A([REF(*put(D([('Kids', A([REF(*top)]))])))]))]))
+        extra.append((top, D([('Kids', A([REF(*put(D(leaf()))), REF(*mid)]))])))
+        return [('Names', D([('Dests', REF(*top))]))], extra, nxt[0]
+    elif style == 'kids-notarray':
+        root = [('Kids', rng.choice([I(5), D([]), N('k'), REF(*put(A([])))]))] + leaf()    # also a reference: as_array()? is not followed
+    elif style == 'names-notarray':
+        root = [('Names', rng.choice([I(5), D([]), S(b'x'), REF(*put(A([])))]))]
+    elif style == 'value-noD':
+        root = [('Names', A(names_arr(rng.randint(0, 2)) + [key(), D([('X', I(1))])] + names_arr(1)))]
+    elif style == 'value-D-notarray':
+        root = [('Names', A([key(), D([('D', rng.choice([I(1), S(b'other'), REF(*put(dest_arr()))]))])]))]
+    elif style == 'value-D-short':
+        root = [('Names', A(names_arr(1) + [key(), D([('D', dest_arr(short=rng.randint(0, 1)))])]))]
+    elif style == 'refvalue-noD':
+        root = [('Names', A([key(), REF(*put(D([('S', N('GoTo'))])))]))]
+    elif style == 'refarray-short':
+        root = [('Names', A([key(), REF(*put(dest_arr(short=rng.randint(0, 1))))]))]
+    elif style == 'key-notstring':
+        root = [('Names', A([rng.choice([N('name'), I(1), NULL]), rng.choice([D([('D', dest_arr())]), REF(*put(dest_arr()))])]))]
+    else:
+        raise ValueError(style)
+    if style in NT_REFUSED and style not in ('deep-258', 'dag-over-budget') and rng.random() < 0.4:
+        # the refused node below a healthy root
+        root = [('Kids', A([REF(*put(D(leaf()))), REF(*put(D(root)))]))]
+    return attach_as(root, how), extra, nxt[0]
+
+
+def gen_bookmark_case(rng, kind, tier, deep_n=None, wide=None, ntree=None):
     big = tier != 'quick'
     npages = rng.choice([1, 1, 2, 3, 5, 8] + ([20, 40] if big else []))
     objects, trailer, max_id, pages, cat, spare, cat_entries = gen_doc(rng, npages, sparse=rng.random() < 0.4)
@@ -350,13 +506,26 @@ def gen_bookmark_case(rng, kind, tier, deep_n=None, wide=None):
     if kind == 'hasoutlines':
         # the catalog already has an Outlines entry: it is replaced
         objects = [(i, o) if i != cat else (i, D(cat_entries + [('Outlines', REF(*pages[0]))])) for i, o in objects]
+    refused = False
+    if ntree is not None:
+        # a name tree in the catalog (objects numbered above max_id, which is raised: build_outline numbers from max_id + 1)
+        ents, extra, top = name_tree(rng, ntree, pages, max_id + 1, titles, 1 + 2 * len(ops))
+        cur = dict(objects)[cat]
+        assert cur.endswith(')')
+        objects = [(i, o) if i != cat else (i, o[:-1] + ' ' + ' '.join(L(xb(k), v) for k, v in ents) + ')') for i, o in objects]
+        objects += extra
+        max_id = max(max_id, top)
+        refused = ntree in NT_REFUSED
     rng.shuffle(objects)
     doc = DOC('1.5', b'', trailer + [('Size', I(max_id + 1))] if rng.random() < 0.5 else trailer, objects, max_id)
     opsx = L('ops', *[L('add', T(t), str(rng.randint(0, 3)),
                         L('c', xb(rng.choice(PALETTE)), xb(rng.choice(PALETTE)), xb(rng.choice(PALETTE))),
                         OID(*p), 'none' if par is None else str(par)) for (t, p, par) in ops])
-    exp = L('wf', *[L('row', str(l), T(t), str(pnum[p])) for (l, t, p) in rows]) if wf else L('mal')
+    # ndbad: every hypothesis of the read-back clause holds but get_named_destinations refuses the catalog's name tree
+    exp = L('ndbad' if refused else 'wf', *[L('row', str(l), T(t), str(pnum[p])) for (l, t, p) in rows]) if wf else L('mal')
     case = L('case', doc, opsx, L('flags', str(adjust), str(reload)), exp)
+    if ntree is not None:
+        return case, {'kind': ('wf-' if wf else 'mal-') + ('ndbad-' if refused else 'nd-') + ntree, 'nontrivial': True}
     if kind == 'widepar':
         return case, {'kind': 'wf-widepar-' + wide[0], 'nontrivial': True, 'parents': wide[1], 'bookmarks': n}
     if kind == 'deep':
@@ -367,7 +536,7 @@ def gen_bookmark_case(rng, kind, tier, deep_n=None, wide=None):
 # ------------------------------------------------------------------------------------------
 # hand-built outlines (no bookmark added): exercise every branch of the reader model
 # ------------------------------------------------------------------------------------------
-def gen_reader_case(rng, tier):
+def gen_reader_case(rng, tier, named=False):
     npages = rng.choice([1, 2, 3, 5])
     objects, trailer, max_id, pages, cat, spare, cat_entries = gen_doc(rng, npages)
     nxt = [max_id]
@@ -408,8 +577,8 @@ def gen_reader_case(rng, tier):
             d = A([REF(*pg), N('XYZ'), I(0), I(0), NULL])
         elif r < 0.85:
             d = A([I(0), N('Fit')])                        # page given by number: not a reference
-        elif r < 0.9:
-            d = S(b'named')
+        elif r < 0.9 or (named and r < 0.97):
+            d = S(rng.choice([b'named', b'named', b'other', b'missing'])) if named else S(b'named')
         elif r < 0.93:
             d = rng.choice([A([]), A([REF(*pg)])])         # short array: panics (C13's finding)
         else:
@@ -475,7 +644,29 @@ def gen_reader_case(rng, tier):
     if rng.random() < 0.1:
         oent = [('Type', N('Outlines'))]
     objects.append((oid, D(oent)))
-    objects = [(i, o) if i != cat else (i, D(cat_entries + [('Outlines', REF(*oid))])) for i, o in objects]
+    cat_extra = []
+    if named:
+        # string destinations resolved through the name tree: the stored destination gets the item's Title (visible to a later
+        # item with the same name); 'named' twice: IndexMap::insert replaces; an unreadable tree now and then
+        kind += '-named'
+        def nd_val(pg):
+            arr = A([REF(*pg), N('Fit')]) if rng.random() < 0.8 else A([REF(*pg)])
+            r = rng.random()
+            if r < 0.4:
+                i = new_id(); objects.append((i, arr)); return REF(*i)
+            if r < 0.7:
+                i = new_id(); objects.append((i, D([('D', arr)]))); return REF(*i)
+            return D([('D', arr)])
+        names = []
+        for k in [b'named', b'other'] + ([b'named'] if rng.random() < 0.3 else []) + [b'k%d' % j for j in range(rng.randint(0, 2))]:
+            names += [S(k), nd_val(rng.choice(pages + [cat]))]
+        if rng.random() < 0.1:
+            names += [N('notastring'), D([('D', A([REF(*pages[0]), N('Fit')]))])]
+        lf = new_id()
+        objects.append((lf, D([('Names', A(names))])))
+        rootn = D([('Kids', A([REF(*lf)] + ([REF(*lf)] if rng.random() < 0.2 else [])))]) if rng.random() < 0.6 else D([('Names', A(names))])
+        cat_extra = rng.choice([[('Dests', rootn)], [('Names', D([('Dests', rootn)]))]])
+    objects = [(i, o) if i != cat else (i, D(cat_entries + cat_extra + [('Outlines', REF(*oid))])) for i, o in objects]
     rng.shuffle(objects)
     doc = DOC('1.5', b'', trailer, objects, nxt[0])
     case = L('case', doc, L('ops'), L('flags', '1', '1'), L('mal'))
@@ -511,6 +702,16 @@ def gen_cases(rng, tier):
         wides += [('each1', 2000), ('mixed', 1500), ('spread', 1000), ('spread-chain', 1000)]
     for w in wides:
         cases.append(gen_bookmark_case(rng, 'widepar', tier, wide=w))
+    # catalogs WITH name trees (drawn after everything else): every valid / tolerated style must read back, every refused
+    # style must give Err (and nothing else); plus hand-built outlines whose string destinations go through the tree
+    reps = 1 if tier == 'quick' else 25
+    for _ in range(reps):
+        for st in NT_VALID + NT_REFUSED:
+            cases.append(gen_bookmark_case(rng, rng.choice(['plain', 'plain', 'zero', 'orphan', 'hasoutlines']), tier, ntree=st))
+        for st in rng.sample(NT_VALID, 6) + rng.sample(NT_REFUSED, 4):
+            cases.append(gen_bookmark_case(rng, rng.choice(kinds), tier, ntree=st))
+        for _ in range(14):
+            cases.append(gen_reader_case(rng, tier, named=True))
     return cases
 
 
@@ -555,13 +756,20 @@ SPEC = {
             'Root, chains of height 256/257 (read back) and 258+ (known finding), wide shallow forests (255..600 chapters that each have '
             'sections on ONE sibling list, 200 chapters + 100 sections with subsections under the last, depth 2..4, 500..1200 bookmarks (thorough tier: 120 more with 100..700 parents and four with 3000..5000 bookmarks), '
             'some with zero-page parents; in memory and after save_to + load_mem), plus hand-built outlines exercising every branch of the '
-            'reader incl. cyclic First/Next links (reference budget / depth limit); non-trivial = at least 2 bookmarks or a '
-            'hand-built outline; distinct = distinct case text',
+            'reader incl. cyclic First/Next links (reference budget / depth limit); catalogs WITH named destinations (Dests direct / '
+            'indirect, Names->Dests direct / indirect / doubly indirect; flat, 2-3 level trees with Limits, PDF 1.1 name->destination '
+            'dictionaries, names equal to bookmark titles, chains of 256 / 257 (read) and 258 (refused) levels, a leaf listed 2-4 times '
+            '(read) or more often than the document has objects (refused), tolerated ill-typed entries (non-reference kids, kids that '
+            'are not dictionaries, dangling kids, trailing key, scalar / dangling / direct-array values), refused trees (Kids cycles of '
+            'length 1, 2, through an ancestor; Kids / Names not arrays; value without D, D not an array, D shorter than 2; key not a '
+            'string), each beside plain / zero-page / orphan / replaced-Outlines bookmark forests: the first group must read back, the '
+            'second must answer Err) and hand-built outlines whose string destinations resolve through the name tree; '
+            'non-trivial = at least 2 bookmarks or a hand-built outline or a catalog with a name tree; distinct = distinct case text',
     'extra_trusted': [
         'C17: Rust std str::is_ascii / encode_utf16 / String::from_utf16_lossy / from_utf8_lossy behave as Model/Outline.v and '
         'Model/Toc.v state; tied by the differential runs over ASCII, Latin, BMP and astral titles',
-        'C17: get_named_destinations is not modelled (model answers "unmodelled" when the catalog has Dests or Names/Dests); '
-        'the generator never emits such catalogs for C17 (C13 covers that function)',
+        'C17: get_named_destinations is C13\'s model (Model/Query.v nd_walk, proved total there), called by Model/TocNamed.v as '
+        'get_outlines calls it; tied here by the differential runs over catalogs with valid, tolerated and refused name trees',
         'C17: HashMap bookmark_table / processed are modelled as association lists (only keyed access is observable)',
     ],
 }
